@@ -136,3 +136,18 @@ def r2(ctx: Ctx) -> None:
 def r3(ctx: Ctx) -> None:
     from .points import point_arithmetic
     point_arithmetic(ctx, ops={"__neg__", "__add__", "__sub__", "norm"})
+
+
+@rule("C17", "R4.function-of-its-arguments", "PURE",
+      "the overlap area is a function of the four arguments of the call: circle_circle_intersection_area (and the other functions "
+      "of the tool) are not wrapped by a caching decorator, and the tool keeps no process-wide state (the C20 inventory restricted "
+      "to this file)", floor=1)
+def r4(ctx: Ctx) -> None:
+    from .C13 import _undecorated
+    from . import C20 as _c20
+    funcs = [f for f in ctx.model.all_functions(include_inlined=True) if f.module.relpath == FORCE]
+    _undecorated(ctx, funcs)
+    state = {k: w for k, w in _c20.discover_state(ctx).items() if k[0] == FORCE}
+    ctx.site(FORCE, "no process-wide state in the tool", state=sorted(k[1] for k in state))
+    for k, w in sorted(state.items()):
+        ctx.report(f"{k[0]}::{k[1]}", f"hidden-state {k[1]}", f"{k[1]} is process-wide state of the tool: the overlap reported for two discs can depend on earlier calls", lineno=0)
